@@ -876,69 +876,60 @@ shift(bitint383_t cand[static 3U], const unsigned int y, echs_shift_t sh)
 		bitint383_t res[3U] = {0U};
 		int c;
 
-		if (UNLIKELY(echs_shift_dvalue(sh))) {
-			/* merge all the off-year candidates from above */
-			for (size_t i = 0U; i < countof(res->pos); i++) {
-				cand[0U].pos[i] ^= cand[1U].pos[i];
-				cand[0U].neg[i] ^= cand[1U].neg[i];
-			}
-			for (size_t i = 0U; i < countof(res->pos); i++) {
-				cand[0U].pos[i] ^= cand[2U].pos[i];
-				cand[0U].neg[i] ^= cand[2U].neg[i];
-			}
-		}
+		/* the day shift above may have left candidates in the year
+		 * before (cand[1]) and the year after (cand[2]) */
+		for (size_t k = 0U; k < 3U; k++) {
+			for (bitint_iter_t ci = 0UL; (c = bi383_next(&ci, &cand[k]), ci);) {
+				const struct md_s md = unpack_cand(c);
+				int nu_d = md.d;
+				int nu_m = md.m;
+				unsigned int nu_y = y - (k == 1U) + (k == 2U);
+				echs_wday_t w = ymd_get_wday(nu_y, nu_m, nu_d);
+				unsigned int u5, u7;
+				int nu_b = b;
 
-		/* go through candidates and shift */
-		for (bitint_iter_t ci = 0UL; (c = bi383_next(&ci, cand), ci);) {
-			const struct md_s md = unpack_cand(c);
-			int nu_d = md.d;
-			int nu_m = md.m;
-			unsigned int nu_y = y;
-			echs_wday_t w = ymd_get_wday(nu_y, nu_m, nu_d);
-			unsigned int u5, u7;
-			int nu_b = b;
+				if (w >= SAT) {
+					if (!echs_shift_neg_p(sh)) {
+						/* move to MON */
+						nu_d += 8 - w;
+						w = MON;
+						nu_b -= b && !echs_shift_inv_p(sh);
+					} else {
+						/* move to FRI */
+						nu_d -= w - 5;
+						w = FRI;
+						nu_b += b && !echs_shift_inv_p(sh);
+					}
+				}
+				/* 384 == -1 == 4 mod 5  384 == -1 == 6 mod 7 */
+				u5 = (w + 384 + nu_b) % 5U;
+				nu_b = nu_b / 5 * 7 + nu_b % 5;
+				u7 = (w + 384 + nu_b) % 7U;
+				/* u5 is the day we want to be on, Mon=0
+				 * u7 is the day we land on, Mon=0 */
+				nu_d += nu_b;
+				nu_d += u5 - u7;
+				nu_d += nu_b > 0 && u5 < u7 ? 7 : 0;
 
-			if (w >= SAT) {
-				if (!echs_shift_neg_p(sh)) {
-					/* move to MON */
-					nu_d += 8 - w;
-					w = MON;
-					nu_b -= b && !echs_shift_inv_p(sh);
-				} else {
-					/* move to FRI */
-					nu_d -= w - 5;
-					w = FRI;
-					nu_b += b && !echs_shift_inv_p(sh);
+			reassessB:
+				if (UNLIKELY(nu_d <= 0)) {
+					/* fixup, innit */
+					if (UNLIKELY(--nu_m <= 0)) {
+						nu_m += 12, nu_y--;
+					}
+					nu_d += __get_ndom(nu_y, nu_m);
+					goto reassessB;
+				} else if (UNLIKELY(nu_d > (int)__get_ndom(nu_y, nu_m))) {
+					/* fixup too, grrr */
+					nu_d -= __get_ndom(nu_y, nu_m);
+					if (UNLIKELY(++nu_m > 12)) {
+						nu_m -= 12, nu_y++;
+					}
+					goto reassessB;
 				}
+				/* assign now */
+				ass_bi383(&res[(nu_y != y) << (nu_y > y)], pack_cand(nu_m, nu_d));
 			}
-			/* 384 == -1 == 4 mod 5  384 == -1 == 6 mod 7 */
-			u5 = (w + 384 + nu_b) % 5U;
-			nu_b = nu_b / 5 * 7 + nu_b % 5;
-			u7 = (w + 384 + nu_b) % 7U;
-			/* u5 is the day we want to be on, Mon=0
-			 * u7 is the day we land on, Mon=0 */
-			nu_d += nu_b;
-			nu_d += u5 - u7;
-			nu_d += nu_b > 0 && u5 < u7 ? 7 : 0;
-
-		reassessB:
-			if (UNLIKELY(nu_d <= 0)) {
-				/* fixup, innit */
-				if (UNLIKELY(--nu_m <= 0)) {
-					nu_m += 12, nu_y--;
-				}
-				nu_d += __get_ndom(nu_y, nu_m);
-				goto reassessB;
-			} else if (UNLIKELY(nu_d > (int)__get_ndom(nu_y, nu_m))) {
-				/* fixup too, grrr */
-				nu_d -= __get_ndom(nu_y, nu_m);
-				if (UNLIKELY(++nu_m > 12)) {
-					nu_m -= 12, nu_y++;
-				}
-				goto reassessB;
-			}
-			/* assign now */
-			ass_bi383(&res[(nu_y != y) << (nu_y > y)], pack_cand(nu_m, nu_d));
 		}
 		memcpy(cand, res, sizeof(res));
 	}
